@@ -131,8 +131,41 @@ def run_rc_impl(case):
     return rows, final
 
 
+class _Hung(BaseException):
+    pass
+
+
+def _with_deadline(seconds, fn, *a):
+    """run fn(*a) on the real code under a wall-clock limit (a history on which the real container loops forever is a
+    failing history, not a reason for the whole check to hang)"""
+    import signal
+
+    def on_alarm(signum, frame):
+        raise _Hung()
+
+    old = signal.signal(signal.SIGALRM, on_alarm)
+    signal.setitimer(signal.ITIMER_REAL, seconds)
+    try:
+        return fn(*a)
+    finally:
+        signal.setitimer(signal.ITIMER_REAL, 0)
+        signal.signal(signal.SIGALRM, old)
+
+
+HUNG = [0]
+
+
 def check_rc(ctx, case, pending):
-    rows, final = run_rc_impl(case)
+    if HUNG[0] >= 3:
+        return          # three histories that do not terminate are reported; no point in waiting for thousands more
+    try:
+        rows, final = _with_deadline(10, run_rc_impl, case)
+    except _Hung:
+        HUNG[0] += 1
+        ctx.case(("rc", case["init"], case["ops"]), nontrivial=True)
+        ctx.violation("C20:refcache:history-does-not-terminate", "the ReferenceCache does not finish the history %s within 10 s (the specification "
+                      "answers every operation at once)" % (case["ops"][:8],), case)
+        return
     ctx.case(("rc", case["init"], case["ops"]), sample=case if len(case["ops"]) > 3 else None, nontrivial=len(case["ops"]) >= 2)
     ctx.count("rc:histories")
     for op in case["ops"]:
